@@ -19,6 +19,7 @@ from vz import core
 from vz.gen import schema as M
 from vz.harness import load as H
 from vz.harness import pkgs
+from vz.ref import schemadoc as R
 
 ITEM_TAGS = ("key", "multikey", "section", "multisection")
 CONTAINER_TAGS = ("schema", "sectiontype")
@@ -478,11 +479,477 @@ def _related(es, pm, i, j):
     return False
 
 
+# ---------------------------------------------------------------------------
+# wave 2, axis N: the complete parent x child matrix of the DTD vocabulary at every element, one and two levels
+# deep (text-only elements included as parents), and axis T: text at every text position of every element.
+# The verdict comes from the DTD content model transcribed in vz.ref.schemadoc, not from an operator.
+
+LEAF = "zleaftype"
+
+
+def make_child(tag, parent, inner_text=False):
+    """A minimal instance of `tag` that breaks no OTHER rule wherever it ends up being registered (fresh names,
+    explicit fresh attributes, a type defined at the top of the document)."""
+    c = ET.Element(tag)
+    if tag in ("key", "multikey"):
+        c.set("name", "zfresh" + tag[0])
+        c.set("attribute", "zfresh_attr_" + tag[0])
+    elif tag == "section":
+        c.set("name", "zfreshs")
+        c.set("type", LEAF)
+        c.set("attribute", "zfresh_attr_s")
+    elif tag == "multisection":
+        c.set("name", "*")
+        c.set("type", LEAF)
+        c.set("attribute", "zfresh_attr_ms")
+    elif tag in ("sectiontype", "abstracttype"):
+        c.set("name", "zfresh" + tag[0] + "type")
+    elif tag == "import":
+        c.set("package", "ZConfig.components.basic")
+        c.set("file", "mapping.xml")
+    elif tag == "default":
+        if parent is not None and parent.get("name") == "+":
+            c.set("key", "zfreshdk")
+        c.text = "1"
+    elif tag in R.TEXT_ONLY:
+        c.text = "some text"
+    if inner_text and tag not in R.TEXT_ONLY:
+        c.text = "stray text"
+    return c
+
+
+def legal_child_judged(tag, e):
+    """For a DTD-legal child `tag` of the EXISTING element e (of a rule-abiding document): 'accept' when the
+    edited document still satisfies every rule, 'total' where the statement is silent."""
+    if tag in ("description", "example", "metadefault"):
+        return "total" if any(x.tag == tag for x in e) else "accept"      # cardinality is not nesting (DESIGN 8.3)
+    if tag == "default":
+        if e.get("required") == "yes" or e.get("default") is not None:
+            return "total"
+        if e.tag == "multikey" or e.get("name") == "+":
+            return "accept"
+        return "total"                                                   # <default> in a plain <key>: unspecified
+    if tag == "import":
+        return "total"
+    return "accept"
+
+
+def fresh_child_judged(tag2, tag1):
+    """For a DTD-legal child tag2 of a freshly made tag1 element."""
+    if tag2 == "default":
+        return "accept" if tag1 == "multikey" else "total"
+    if tag2 == "import":
+        return "total"
+    return "accept"
+
+
+def nest_expect(e, chain, textmode):
+    if textmode == "inner":
+        return "reject", "stray-text-in-inserted-element"
+    v1 = R.nesting(chain[0], e.tag)
+    if len(chain) == 1:
+        if v1 == "illegal":
+            return "reject", "child-not-in-content-model"
+        if v1 == "unspecified":
+            return "total", "dtd-and-parser-table-disagree"
+        j = legal_child_judged(chain[0], e)
+        return j, ("legal-child" if j == "accept" else "legal-child-unjudged")
+    v2 = R.nesting(chain[1], chain[0])
+    if v1 == "illegal" or v2 == "illegal":
+        return "reject", ("element-inside-text-only-element" if chain[0] in R.TEXT_ONLY else "child-not-in-content-model")
+    if v1 == "unspecified" or v2 == "unspecified":
+        return "total", "dtd-and-parser-table-disagree"
+    if legal_child_judged(chain[0], e) != "accept" or fresh_child_judged(chain[1], chain[0]) != "accept":
+        return "total", "legal-chain-unjudged"
+    return "accept", "legal-chain"
+
+
+def nest_doc(xml, site, chain, pos, textmode):
+    root = ET.fromstring(xml)
+    e = elems(root)[site]
+    shift = 0
+    if any(t in ("section", "multisection") for t in chain):
+        t = ET.Element("sectiontype")
+        t.set("name", LEAF)
+        root.insert(0, t)
+        shift = 1 if e is root else 0
+    c1 = make_child(chain[0], e, textmode == "inner" and len(chain) == 1)
+    if pos == "first":
+        e.insert(shift, c1)
+    else:
+        e.append(c1)
+    if len(chain) == 2:
+        c2 = make_child(chain[1], c1, textmode == "inner")
+        c1.append(c2)
+        if textmode == "mixed":
+            c1.text = "text before "
+            c2.tail = " text after"
+        elif chain[0] in R.TEXT_ONLY:
+            c1.text = None
+    return ET.tostring(root, encoding="unicode")
+
+
+def nest_cases(root, tier):
+    """(site index, chain, position, textmode) - the whole matrix at every element."""
+    quick = tier == "quick"
+    positions = ("last",) if quick else ("last", "first")
+    for i, e in enumerate(elems(root)):
+        poss = positions if len(e) else ("last",)
+        for c in R.CHILD_TAGS:
+            for pos in poss:
+                yield i, (c,), pos, "none"
+            if not quick and c not in R.TEXT_ONLY:
+                yield i, (c,), "last", "inner"
+        for c1 in R.CHILD_TAGS:
+            if R.nesting(c1, e.tag) == "illegal":
+                continue                     # refused at c1 already: the one-level case above
+            for c2 in R.CHILD_TAGS:
+                modes = ("none", "mixed") if c1 in R.TEXT_ONLY else ("none",)
+                if not quick and c2 not in R.TEXT_ONLY:
+                    modes += ("inner",)
+                for pos in ((("first",) if c1 in R.TEXT_ONLY else ("last",)) if quick else poss):
+                    for tm in modes:
+                        yield i, (c1, c2), pos, tm
+
+
+def judge_outcome(o, expect):
+    """-> None if fine, else the violation kind."""
+    if expect == "reject":
+        return None if o[0] == "schema-error" else "rule-violation-not-reported-as-schema-error"
+    if expect == "accept":
+        return None if o[0] == "accepted" else "rule-abiding-document-refused"
+    return None if o[0] in ("accepted", "schema-error") else "unspecified-region-not-total"
+
+
+VERDICT_EXPECT = {"accept": "accept", "reject": "reject", "unspecified": "total"}
+EXPECT_TEXT = {"reject": "ZConfig.SchemaError from loadSchemaFile", "accept": "accepted",
+               "total": "accepted or ZConfig.SchemaError"}
+
+
+def explore_nesting(name, xml, acc, tier, wrap=None):
+    wrap = wrap or (lambda x: x)
+    root = ET.fromstring(xml)
+    es = elems(root)
+    pm = parents(root)
+    for i, chain, pos, tm in nest_cases(root, tier):
+        e = es[i]
+        expect, clause = nest_expect(e, chain, tm)
+        edited = nest_doc(xml, i, chain, pos, tm)
+        o = observe(wrap(edited))
+        acc.ev()
+        acc.transitions += 1
+        if e is not root:
+            acc.nt()
+        acc.cls("nesting:%s:%s" % (expect, o[0]))
+        acc.clause("nesting:" + clause)
+        acc.extra["nesting_cell:%s>%s" % (e.tag if len(chain) == 1 else chain[0], chain[-1])] += 1
+        case = {"document": name, "xml": xml, "edit": "insert " + ">".join(chain), "site": i, "site_tag": e.tag,
+                "position": pos, "text": tm, "edited": edited, "expect": expect}
+        acc.sample(lambda: dict(case, outcome=o[0]))
+        bad = judge_outcome(o, expect)
+        if bad:
+            acc.violation(bad, case, o, EXPECT_TEXT[expect],
+                          tags={"kind": bad, "axis": "nesting", "parent": e.tag, "chain": ">".join(chain),
+                                "text": tm, "outcome": o[0]})
+    acc.traces = acc.transitions
+
+
+def explore_text(name, xml, acc, tier, wrap=None):
+    """Axis T: text at every text position of every non-text element."""
+    wrap = wrap or (lambda x: x)
+    root = ET.fromstring(xml)
+    es = elems(root)
+    for i, e in enumerate(es):
+        if e.tag in R.TEXT_ONLY:
+            continue
+        for k in range(len(e) + 1):
+            if k == 0 and _old_stray_applies(e):
+                continue                     # the 'stray-text' operator already puts text there
+            r2 = ET.fromstring(xml)
+            e2 = elems(r2)[i]
+            if k == 0:
+                e2.text = (e2.text or "") + "stray text"
+            else:
+                e2[k - 1].tail = (e2[k - 1].tail or "") + "stray text"
+            edited = ET.tostring(r2, encoding="unicode")
+            o = observe(wrap(edited))
+            acc.ev()
+            acc.transitions += 1
+            if e is not root:
+                acc.nt()
+            acc.cls("text-position:reject:" + o[0])
+            acc.clause("text-position:" + ("before-first-child" if k == 0 else
+                                           "after-text-only-child" if e[k - 1].tag in R.TEXT_ONLY else "after-child"))
+            if o[0] != "schema-error":
+                case = {"document": name, "xml": xml, "edit": "text at position %d" % k, "site": i, "site_tag": e.tag,
+                        "edited": edited, "expect": "reject"}
+                acc.violation("rule-violation-not-reported-as-schema-error", case, o, EXPECT_TEXT["reject"],
+                              tags={"kind": "negative", "axis": "text-position", "parent": e.tag,
+                                    "after": "-" if k == 0 else e[k - 1].tag, "outcome": o[0]})
+    acc.traces = acc.transitions
+
+
+def _old_stray_applies(e):
+    return e.tag in ("section", "multisection", "abstracttype") + CONTAINER_TAGS or (
+        e.tag in ("key", "multikey") and len(e) == 0)
+
+
+# ---------------------------------------------------------------------------
+# wave 2, axis K: every container in the context of every other container of the SAME document (one parser).
+# A document is a sequence of containers; each has its own key type and a short item list over a spelling
+# alphabet on which the key types normalise differently.  The reference (vz.ref.schemadoc.judge_container)
+# decides each container by itself; the document is acceptable iff every container is.
+
+SPELLINGS = ("Host", "host", "h-x", "h_x")
+ITEM_KINDS = ("key", "multikey", "section")
+CTX_ITEMS = tuple((k, s, x) for k in ITEM_KINDS for s in SPELLINGS for x in (True, False))   # x: explicit attribute
+
+
+def ctx_specs(maxlen, ordered):
+    out = [()]
+    for n in range(1, maxlen + 1):
+        it = itertools.product(CTX_ITEMS, repeat=n) if ordered else itertools.combinations_with_replacement(CTX_ITEMS, n)
+        out += list(it)
+    return out
+
+
+def ctx_ref_items(spec, letter):
+    return [(k, s, ("x%s%d" % (letter, i)) if x else None) for i, (k, s, x) in enumerate(spec)]
+
+
+def ctx_render_items(spec, letter, ind):
+    out = []
+    for i, (k, s, x) in enumerate(spec):
+        a = ' attribute="x%s%d"' % (letter, i) if x else ""
+        if k == "section":
+            out.append('%s<section name="%s" type="zleaf"%s/>\n' % (ind, s, a))
+        else:
+            out.append('%s<%s name="%s"%s/>\n' % (ind, k, s, a))
+    return "".join(out)
+
+
+def _kt_attr(kt):
+    return ' keytype="%s"' % kt if kt else ""
+
+
+_RENDER_CACHE = {}
+_JUDGE_CACHE = {}
+
+
+def _render_cont(c):
+    r = _RENDER_CACHE.get(c)
+    if r is None:
+        place, letter, kt, spec, ext = c
+        if place == "top":
+            r = ctx_render_items(spec, letter, "  ")
+        else:
+            r = '  <sectiontype name="c%s"%s%s>\n%s  </sectiontype>\n' % (
+                letter, ' extends="c%s"' % ext if ext else "", _kt_attr(kt), ctx_render_items(spec, letter, "    "))
+        if len(_RENDER_CACHE) > 200000:
+            _RENDER_CACHE.clear()
+        _RENDER_CACHE[c] = r
+    return r
+
+
+def ctx_document(conts, root_tag="schema"):
+    """conts: list of (place, letter, keytype rendering or None, spec, extends-letter or None); place in
+    'type' / 'top'.  At most one 'top' container (its key type is the schema's)."""
+    ks = None
+    body = []
+    for c in conts:
+        if c[0] == "top":
+            ks = c[2]
+        body.append(_render_cont(c))
+    return '<%s%s>\n  <sectiontype name="zleaf"/>\n%s</%s>\n' % (root_tag, _kt_attr(ks), "".join(body), root_tag)
+
+
+def ctx_judge(conts):
+    """Reference verdict of the document: (verdict, clause, per-container verdicts)."""
+    done = {}
+    verdicts = []
+    for place, letter, kt, spec, ext in conts:
+        items = ctx_ref_items(spec, letter) if ext else None
+        if ext:
+            bkt, bentries, bverdict = done[ext]
+            eff = kt or bkt
+            if bverdict != "accept":
+                v = (bverdict, "base-type-" + bverdict, [])
+            else:
+                v = R.judge_container(eff, items, inherited=bentries, explicit_keytype=kt)
+        else:
+            eff = kt or "basic-key"
+            ck = (eff, letter, spec)
+            v = _JUDGE_CACHE.get(ck)
+            if v is None:
+                if len(_JUDGE_CACHE) > 200000:
+                    _JUDGE_CACHE.clear()
+                v = _JUDGE_CACHE[ck] = R.judge_container(eff, ctx_ref_items(spec, letter))
+        done[letter] = (eff, v[2], v[0])
+        verdicts.append(v)
+    effs = [done[c[1]][0] for c in conts]
+    for want in ("reject", "unspecified"):
+        for v in verdicts:
+            if v[0] == want:
+                return want, v[1], verdicts, effs
+    return "accept", verdicts[-1][1], verdicts, effs
+
+
+def ctx_combos(tier):
+    """(layout, [keytype renderings per container]) ; layout = tuple of (place, letter, extends)."""
+    tt = (("type", "a", None), ("type", "b", None))
+    te = (("type", "a", None), ("type", "b", "a"))
+    t_top = (("type", "a", None), ("top", "b", None))
+    top_t = (("top", "a", None), ("type", "b", None))
+    if tier == "quick":
+        kts = (None, "identifier")
+        for lay, ordered in ((tt, True), (te, False), (t_top, False), (top_t, False)):
+            for ka in kts:
+                for kb in kts:
+                    yield lay, (ka, kb), ordered, 1
+    else:
+        kts = (None, "basic-key", "identifier", R.LOWER_KEY)
+        for lay in (tt, te, t_top, top_t):
+            for ka in kts:
+                for kb in kts:
+                    yield lay, (ka, kb), True, 1
+        ttt = (("type", "a", None), ("type", "m", None), ("type", "b", None))
+        tte = (("type", "a", None), ("type", "m", None), ("type", "b", "a"))
+        for lay in (ttt, tte):
+            for ks in itertools.product((None, "identifier"), repeat=3):
+                yield lay, ks, False, 1
+
+
+def ctx_shards(tier):
+    out = []
+    nchunk = 5
+    for lay, kts, ordered, _ in ctx_combos(tier):
+        for ch in range(nchunk):
+            out.append(("ctx", tier, lay, kts, ordered, ch, nchunk, "schema"))
+    if tier != "quick":
+        tt = (("type", "a", None), ("type", "b", None))
+        for ka in (None, "identifier"):
+            for kb in (None, "identifier"):
+                for ch in range(nchunk):
+                    out.append(("ctx", tier, tt, (ka, kb), True, ch, nchunk, "component"))
+    return out
+
+
+def explore_ctx(arg, acc):
+    _, tier, lay, kts, ordered, ch, nchunk, root_tag = arg
+    hist_specs = ctx_specs(1, True)
+    b_specs = ctx_specs(2, ordered)[ch::nchunk]
+    P = None
+    load = observe
+    try:
+        if root_tag == "component":
+            P = pkgs.Packages()
+            real = P.add_component("ctx", [])
+            path = os.path.join(P.dir, real, "component.xml")
+            schema = '<schema>\n  <import package="%s"/>\n</schema>\n' % real
+
+            def load(x):
+                with open(path, "w") as f:
+                    f.write(x)
+                return observe(schema)
+        _explore_ctx(acc, tier, lay, kts, hist_specs, b_specs, root_tag, load)
+    finally:
+        if P is not None:
+            P.close()
+    acc.traces = acc.transitions
+    return acc
+
+
+def _explore_ctx(acc, tier, lay, kts, hist_specs, b_specs, root_tag, load):
+    nh = len(lay) - 1                                   # history containers before the one under test
+    relation = "extends" if lay[-1][2] else "sibling"
+    places = "+".join(p for p, _, _ in lay)
+    alone = {}
+
+    def cont(idx, spec):
+        place, letter, ext = lay[idx]
+        return (place, letter, kts[idx], spec, ext)
+
+    def alone_outcome(idx, spec):
+        """The implementation's own verdict on a document holding just this container."""
+        k = (idx, spec)
+        if k not in alone:
+            conts = [cont(idx, spec)]
+            xml = ctx_document(conts, root_tag)
+            o = load(xml)
+            acc.extra["ctx_single_container_loads"] += 1
+            v, clause, _, _ = ctx_judge(conts)
+            bad = judge_outcome(o, VERDICT_EXPECT[v])
+            if bad:
+                acc.violation(bad, {"document": "container-context", "xml": xml, "expect": VERDICT_EXPECT[v]}, o,
+                              EXPECT_TEXT[VERDICT_EXPECT[v]],
+                              tags={"kind": bad, "axis": "container-context", "relation": "alone", "places": conts[0][0],
+                                    "clause": clause, "root": root_tag, "outcome": o[0]})
+            alone[k] = (o[0], xml)
+        return alone[k][0]
+
+    for idx in range(len(lay)):
+        if lay[idx][2] is None:
+            for spec in (b_specs if idx == nh else hist_specs):
+                alone_outcome(idx, spec)
+
+    for hist in itertools.product(hist_specs, repeat=nh):
+        for b in b_specs:
+            conts = [cont(i, h) for i, h in enumerate(hist)] + [cont(nh, b)]
+            xml = ctx_document(conts, root_tag)
+            v, clause, per, effs = ctx_judge(conts)
+            acc.current = xml
+            o = load(xml)
+            acc.ev()
+            acc.transitions += 1
+            if any(hist):
+                acc.nt()
+            expect = VERDICT_EXPECT[v]
+            how = "reference"
+            if v == "unspecified" and relation == "sibling":
+                # differential: independent containers - the document is acceptable iff each one alone is
+                singles = [alone_outcome(i, c[3]) for i, c in enumerate(conts)]
+                if all(x in ("accepted", "schema-error") for x in singles):
+                    expect = "accept" if all(x == "accepted" for x in singles) else "reject"
+                    how = "differential"
+            acc.cls("context:%s:%s" % (expect, o[0]))
+            acc.clause("context:" + clause)
+            # would the verdict on the LAST container change if it were judged under an earlier container's key type?
+            if not lay[-1][2]:
+                own = per[-1][0]
+                items_b = ctx_ref_items(b, lay[-1][1])
+                if any(e != effs[-1] and R.judge_container(e, items_b)[0] != own for e in effs[:-1]):
+                    acc.extra["ctx_verdict_depends_on_whose_keytype:" + own] += 1
+            case = {"document": "container-context", "xml": xml, "expect": expect, "decided_by": how,
+                    "containers": [[c[0], c[2] or "default", c[4] or "-"] for c in conts], "root": root_tag}
+            acc.sample(lambda: dict(case, outcome=o[0], clause=clause))
+            bad = judge_outcome(o, expect)
+            if bad:
+                acc.violation(bad, case, o, EXPECT_TEXT[expect],
+                              tags={"kind": bad, "axis": "container-context", "relation": relation, "places": places,
+                                    "clause": clause, "root": root_tag, "outcome": o[0]})
+    # every single-container document once more AFTER all the others were loaded in this process
+    for (idx, spec), (first, xml) in sorted(alone.items(), key=lambda kv: kv[1][1]):
+        o = load(xml)
+        acc.extra["ctx_reloads_after_other_documents"] += 1
+        if o[0] != first:
+            acc.violation("verdict-changes-between-two-loads", {"document": "container-context", "xml": xml,
+                                                               "expect": first}, o, first,
+                          tags={"kind": "verdict-changes-between-two-loads", "axis": "container-context"})
+
+
 def shard(arg, acc):
     kind = arg[0]
     if kind == "schema":
         _, name, xml, tier = arg
         explore_doc(name, xml, acc, tier)
+    elif kind == "nest":
+        _, name, xml, tier = arg
+        explore_nesting(name, xml, acc, tier)
+    elif kind == "text":
+        _, name, xml, tier = arg
+        explore_text(name, xml, acc, tier)
+    elif kind == "ctx":
+        explore_ctx(arg, acc)
     else:
         _, tier = arg
         P = pkgs.Packages()
@@ -502,37 +969,108 @@ def shard(arg, acc):
                 return schema
             # operators see a <component> root: treat it like <schema> for type-level edits
             explore_doc("component", comp_xml, acc, tier, wrap)
+            explore_nesting("component", comp_xml, acc, tier, wrap)
+            explore_text("component", comp_xml, acc, tier, wrap)
         finally:
             P.close()
     return acc
 
 
+def nesting_documents(docs, tier):
+    """Axis N/T runs on the hand-built documents (every element context occurs there) in the quick tier and on
+    every base document in the thorough tier."""
+    return [(n, x) for n, x in docs if tier != "quick" or ("@" not in n and n not in ("c08", "c13"))]
+
+
+def text_documents(docs, tier):
+    """Axis T runs on every base document in both tiers."""
+    return list(docs)
+
+
 def run(tier):
     docs = base_documents(tier)
+    ndocs = nesting_documents(docs, tier)
+    tdocs = text_documents(docs, tier)
+    cshards = ctx_shards(tier)
+    quick = tier == "quick"
     run = core.Run(
         "C10", tier, "model_checking",
-        rule="base documents (%d rendered schemas of the generated family, rich / C08 / C13 schemas, a composed document "
+        rule="(1) base documents (%d rendered schemas of the generated family, rich / C08 / C13 schemas, a composed document "
              "with derived key types and prefixes, and a component document imported by a schema) must load; %d "
              "rule-violating edit operators (one or more per rule of the statement) applied at every applicable "
              "element of every base document%s must raise ZConfig.SchemaError from loadSchemaFile; %d rule-preserving "
-             "operators at every site must keep the document loadable.  states = base documents, transitions = edited "
-             "documents loaded.  Non-trivial = edit site below schema top level (inside a section type, a derived "
-             "type or the component)."
-             % (len(docs), len(VIOLATING), "" if tier == "quick" else ", and every pair of violating edits at unrelated elements",
-                len(PRESERVING)),
+             "operators at every site must keep the document loadable.  "
+             "(2) nesting matrix: at EVERY element of %d base documents (component included) every tag of the DTD "
+             "vocabulary (+ schema, component, an unknown tag) is inserted as a child%s, and inside every child that "
+             "is DTD-legal there again every tag%s; verdict from the DTD content model transcribed in vz.ref.schemadoc "
+             "(illegal cell or element inside a text-only element => SchemaError; legal cell with fresh names => accepted; "
+             "4 cells where DTD and the parser's published table disagree, cardinality and <default> in a plain key => only "
+             "accepted-or-SchemaError).  (3) text at every text position (before the first child, after each child) of every "
+             "non-text element of %d base documents => SchemaError.  "
+             "(4) container context: documents holding %s containers in sequence (section types, a derived type "
+             "after its base, the schema's own items before / after a type), each with its own key type out of %s, the "
+             "earlier one(s) holding <= 1 and the last one <= 2 items (%s) out of {key, multikey, section} x spellings %s x "
+             "{explicit, derived attribute}; the reference judges every container by itself under ITS key type (names "
+             "unique after normalisation, attributes unique, names well formed, inherited entries included) and the "
+             "document is accepted iff every container is; where the reference is silent (a key and a section sharing a "
+             "name) the differential relation 'acceptable iff each container alone is acceptable' decides; every "
+             "single-container document is loaded again after all the others.  "
+             "states = base documents, transitions = documents loaded.  Non-trivial = edit site below schema top level "
+             "(inside a section type, a derived type or the component) / a container preceded by a non-empty one."
+             % (len(docs), len(VIOLATING), "" if quick else ", and every pair of violating edits at unrelated elements",
+                len(PRESERVING), len(ndocs) + 1,
+                " (last position)" if quick else " (first and last position, with and without stray text inside it)",
+                " (one position; text-only children with and without surrounding text)" if quick
+                else " (both positions, with / without surrounding text, with / without stray text inside)",
+                len(tdocs) + 1,
+                "two" if quick else "two or three",
+                "{default basic-key, identifier}" if quick else
+                "{default, explicit basic-key, identifier, a case-folding dotted-name key type}; also as a component",
+                "ordered for two sibling types, unordered for a derived type and next to the schema's own items" if quick
+                else "ordered",
+                list(SPELLINGS)),
         bounds={"documents": len(docs) + 1, "violating_operators": [o[0] for o in VIOLATING],
-                "preserving_operators": [o[0] for o in PRESERVING], "pairs": tier != "quick"},
+                "preserving_operators": [o[0] for o in PRESERVING], "pairs": tier != "quick",
+                "nesting_documents": [n for n, _ in ndocs] + ["component"] if quick else len(ndocs) + 1,
+                "text_position_documents": len(tdocs) + 1, "nesting_child_tags": list(R.CHILD_TAGS), "nesting_depth": 2,
+                "nesting_unspecified_cells": sorted("%s in %s" % c for c in R.UNSPEC_CELLS),
+                "context_item_alphabet": len(CTX_ITEMS), "context_spellings": list(SPELLINGS),
+                "context_layouts": sorted(set("%s/%s" % ("+".join(p for p, _, _ in lay), "extends" if lay[-1][2] else "sibling")
+                                              for lay, _, _, _ in ctx_combos(tier))),
+                "context_keytype_combinations": len(list(ctx_combos(tier))), "context_shards": len(cshards)},
         assumptions=["each violating operator breaks a rule of the statement by construction at the site it is applied to",
                      "not generated (unspecified): <default> elements inside a plain <key>, required with <default> "
                      "elements on multikey / wildcard, malformed XML, a second <description> (cardinality is not "
                      "'nesting'), well-formed dotted datatype names that cannot be imported (Registry.get documents an "
-                     "unspecified exception)"])
-    shards = [("schema", n, x, tier) for n, x in docs] + [("component", tier)]
+                     "unspecified exception)",
+                     "the DTD content model (docs/schema.dtd) is the reference for nesting; order and cardinality of "
+                     "children are not 'nesting'; metadefault in schema / section / multisection and import in "
+                     "component are left open (DTD and parser table disagree, shipped components use the latter)",
+                     "a key and a section sharing one normalised name in a container: not decided by the statement "
+                     "(checked differentially); a derived type changing the key type over inherited names that are not "
+                     "fixed points of it: unspecified (DESIGN C11)"])
+    shards = [("schema", n, x, tier) for n, x in docs] + [("component", tier)] + \
+             [("nest", n, x, tier) for n, x in ndocs] + [("text", n, x, tier) for n, x in tdocs] + cshards
     core.pmap(shard, shards, run.acc, shard_budget=3000.0)
     a = run.acc
     missing = [o[0] for o in VIOLATING if not a.clauses.get(o[0])]
     run.require(not missing, "operators never applied: %s" % missing)
     run.require(a.classes.get("preserving:accepted", 0) > 500, "few rule-preserving edits")
+    # wave 2 guards: the new axes were really exercised
+    run.require(a.clauses.get("nesting:element-inside-text-only-element", 0) > 5000,
+                "nesting matrix: few elements inside text-only elements")
+    run.require(a.classes.get("nesting:accept:accepted", 0) > 300, "nesting matrix: few legal cells accepted")
+    cells = [k for k in a.extra if k.startswith("nesting_cell:")]
+    run.require(len(cells) >= 13 * 14, "nesting matrix: only %d (parent, child) cells exercised" % len(cells))
+    run.require(sum(v for k, v in a.clauses.items() if k.startswith("text-position:after")) > 1000,
+                "text positions: few texts after a child element")
+    run.require(a.extra.get("ctx_verdict_depends_on_whose_keytype:accept", 0) > 1000 and
+                a.extra.get("ctx_verdict_depends_on_whose_keytype:reject", 0) > 1000,
+                "container context: few documents whose last container would be judged differently under an earlier "
+                "container's key type")
+    run.require(a.classes.get("context:accept:accepted", 0) > 10000 and a.classes.get("context:reject:schema-error", 0) > 10000,
+                "container context: few decided documents")
+    run.require(a.extra.get("ctx_reloads_after_other_documents", 0) > 1000, "container context: few reloads")
     return run
 
 
@@ -544,9 +1082,17 @@ def replay(body):
         o = observe(doc)
         print(doc)
         print("observed:", o, " expected:", body["expected"])
-        want_accept = body["kind"] == "rule-abiding-document-refused"
-        if (o[0] == "accepted") != want_accept or (not want_accept and o[0] != "schema-error"):
-            rc = 1
-    if case.get("document") == "component":
+        exp = case.get("expect")
+        if exp in ("accepted", "schema-error"):              # verdict-changes-between-two-loads
+            if o[0] != exp:
+                rc = 1
+        elif exp:
+            if judge_outcome(o, exp):
+                rc = 1
+        else:
+            want_accept = body["kind"] == "rule-abiding-document-refused"
+            if (o[0] == "accepted") != want_accept or (not want_accept and o[0] != "schema-error"):
+                rc = 1
+    if case.get("document") == "component" or case.get("root") == "component":
         print("(component documents are re-checked by ./check C10: they need the generated package)")
     return rc
